@@ -293,7 +293,7 @@ def run(ctx):
     deep = ctx.thorough() or not recognised
     if not recognised:
         ctx.notes.append("advisory: a serde impl body is not spelled as the literal delegation (%s); the correspondence sample of this run is the thorough-sized one" % forms)
-    payloads = fixed_payloads() + random_payloads(rnd, 300 if deep else 30, deep)
+    payloads = fixed_payloads() + random_payloads(rnd, (3000 if ctx.thorough() else 300) if deep else 30, deep)
     seen = set()
     payloads = [p for p in payloads if not (" ".join(p) in seen or seen.add(" ".join(p)))]
     res = explore(ctx, binpath, drv, payloads)
